@@ -39,6 +39,9 @@ type ConcScenario struct {
 	SchedSeed uint64               `json:"sched_seed"`
 	TableSeed uint64               `json:"table_seed"`
 	Replay    []uint16             `json:"replay,omitempty"`
+	// ReplayRLE: the recorded schedule, run-length encoded ("task x steps";
+	// S<task> = the task was frozen by a stall fault, R<task> = released)
+	ReplayRLE string `json:"replay_rle,omitempty"`
 }
 
 type Phase struct {
